@@ -31,6 +31,9 @@ THEOREMS = ["Wf.indexOf?_bound", "Wf.resolve_bounded", "Wf.resolveList_bounded",
             "Wf.evalOk_of_mem", "Wf.evalOk_subquery", "Wf.evalOk_node", "Wf.verdict_ok_iff", "Wf.verdict_ok_node",
             "Wf.wSub_builder_accepts", "Wf.wSub_not_evaluable", "Wf.wSub_verdict"]
 # Thm/C17Proj.lean: projection pushdown keeps accepted plans accepted (repaired applier, fix 5c889c5)
+# Thm/C17Agg.lean: an aggregate / window call in a scalar position is a reference to a column nobody produced
+THEOREMS_AGG = ["Wf.scalarOk_of_mem", "Wf.scalarOk_agg_call", "Wf.scalarOk_iff_visited", "Wf.scalarOkList_iff_visited",
+                "Wf.scalarOk_mono", "Wf.scalarOkList_mono", "Wf.aggRefsCheck_node", "Wf.wWin_ok", "Wf.wNoWin_builds_but_refused"]
 THEOREMS_PROJ = ["Wf.Tm.beq_eq", "Wf.kept_resolves", "Wf.resolve_kept", "Wf.resolveList_kept", "Wf.applyProjOrder_keeps_ok",
                  "Wf.applyProjOrder_witness"]
 
@@ -63,6 +66,16 @@ EXTRA_SQL = [
     "select a from t1 union all select x from t2",
     "with c as (select a from t1) select * from c where a > 0",
     "select sum(a) over (partition by b) from t1",
+    # aggregate / window calls that occur ONLY outside the select list: each must still be computed by an operator
+    "select a from t1 order by row_number() over (order by a) desc",
+    "select a, b from t1 order by sum(b) over (order by a, b, c), a",
+    "select distinct a from t1 order by row_number() over (order by a)",
+    "select a from t1 group by a order by count(*) desc, a",
+    "select a from t1 group by a having max(b) > 1 order by min(b)",
+    "select a + 1 from t1 group by a having count(distinct b) > 0",
+    "select a, row_number() over (order by a) from t1 order by sum(b) over (order by a), a",
+    "select count(*) from t1 having sum(b) > 0",
+    "select a from t1 where b > 0 group by a order by sum(b) + count(*)",
     "select * from t1 full join t2 on t1.a = t2.x",
     "select * from t1 right join t2 on t1.a = t2.x and t2.y > 1",
     "select * from t1 left join t2 on t1.a = t2.x and t1.b > 1",
@@ -220,6 +233,7 @@ def run(ck):
     # ---- Lean
     bad = vlib.step_lean(ck, "RlModel.Thm.C17", THEOREMS, extra_targets=["drv_c17"])
     bad.update(vlib.step_lean(ck, "RlModel.Thm.C17Proj", THEOREMS_PROJ))
+    bad.update(vlib.step_lean(ck, "RlModel.Thm.C17Agg", THEOREMS_AGG))
     if cost_thms:
         bad.update(vlib.step_lean(ck, "RlModel.Thm.C17Cost", cost_thms + ["Cost.discounted_cost_negative"]))
     if rows_thms:
@@ -275,8 +289,8 @@ def run(ck):
     texts = list(plans)
     rc, out = vlib.sh([vlib.lean_exe("drv_c17")], stdin="".join("wf %s\n" % t for t in texts), timeout=1200)
     for t, line in zip(texts, out.split("\n")):
-        m = re.match(r"(.*) \| schema=(\d+)$", line.strip())
-        plans[t] = (m.group(1), int(m.group(2))) if m else ("bad-answer:" + line[:80], -1)
+        m = re.match(r"(.*) \| schema=(\d+) \| aggrefs=(true|false)$", line.strip())
+        plans[t] = (m.group(1), int(m.group(2)), m.group(3) == "true") if m else ("bad-answer:" + line[:80], -1, True)
 
     stats = {"statements": 0, "bind_rejected": 0, "executed_plans": 0, "model_vs_impl_disagree": 0, "optimized_ok": 0,
              "verdicts": {}, "features": {}}
@@ -285,7 +299,7 @@ def run(ck):
 
     def judge(plan, outcome, what, case, eng):
         """model verdict vs real outcome for one executed plan"""
-        verdict, _ = plans.get(plan, ("?", -1))
+        verdict = plans.get(plan, ("?", -1, True))[0]
         stats["executed_plans"] += 1
         stats["verdicts"][verdict.split(":")[0]] = stats["verdicts"].get(verdict.split(":")[0], 0) + 1
         cls = outcome["class"]
@@ -336,6 +350,14 @@ def run(ck):
             vo = judge(on["optimized"], on, "optimized", c, eng) if on.get("optimized") else "timeout"
             replay = {"case": c, "engine": eng, "config": extra, "bound": on.get("bound"), "optimized": on.get("optimized"), "verdict": vo, "outcome": on,
                       "requests": [{"id": "replay", "engine": eng, "setup": c["setup"] + extra, "queries": [{"sql": c["sql"], "opt": "on", "plans": True}]}]}
+            # ---- "every column an operator references is produced by its input": an aggregate / window call in a
+            # scalar position (projection, filter, order key, join condition) that no operator below computes builds
+            # and runs — the evaluator has arms that return the call's ARGUMENT — and silently yields the wrong value
+            for which, ptxt in (("bound", on.get("bound")), ("optimized", on.get("optimized"))):
+                if ptxt and not plans.get(ptxt, ("?", -1, True))[2]:
+                    stats["aggregate_refs_not_produced"] = stats.get("aggregate_refs_not_produced", 0) + 1
+                    ck.report("plan:aggregate-reference-not-produced:" + which, "the %s plan of `%s` uses an aggregate / window call in a scalar position that no aggregation / window operator below it computes (the evaluator silently yields the call's argument): %s" % (
+                        which, c["sql"], ptxt[:200]), replay=replay)
             # ---- the property: an accepted statement gets an executable plan with the same arity
             if on["class"] == "timeout":
                 # optimization did not terminate; counterfactual: it does without the `or-true` rule
